@@ -4,11 +4,16 @@
 INSTRUMENTED_PKGS = [
     "pkg/lifecycle", "pkg/lifecycle/stream", "pkg/lifecycle-poc", "pkg/lifecycle-poc/funnel",
     "pkg/connector", "pkg/provisioning", "pkg/plugin/connector/builtin", "pkg/processor", "pkg/pipeline",
-    "pkg/orchestrator", "pkg/foundation/metrics/measure", "pkg/foundation/metrics",
+    "pkg/orchestrator",
 ]
 COMMONS_INSTRUMENTED = ["csync", "semaphore", "cchan", "rollback"]
 
 CHECKS = {
+    "SMOKE": {
+        "parts": [
+            {"name": "smoke", "pkg": "pkg/verifflow", "harness": "flow", "run": "^TestVerifFlowSmoke$", "instrument": True},
+        ],
+    },
     "C20": {
         "rule": "every error tree up to the stated depth over the constructor alphabet; distinct = distinct tree shapes; "
                 "non-trivial = trees containing at least one wrapper around a classified node",
